@@ -68,6 +68,8 @@ Step == /\ l <= Len(Tr) /\ l' = l + 1
                   (e.res = (e.tagok /\ e.off + 1 <= Len(e.pbefore) /\ e.pbefore[e.off + 1] # 0)) \/ Bad("Has reads another pointer slot than the schema assigns")
              [] e.k = "pval" ->      \* Text / Data: a null slot reads as the field's default, a stored value (also the empty one) as itself
                   (e.got = (IF e.isnull THEN e.dflt ELSE e.val)) \/ Bad("Text/Data field does not read back as the stored value, or as the default when null")
+             [] e.k = "pdef" ->      \* struct / list fields: a null slot reads as this field's own default (got, dflt: summaries of the values)
+                  (e.got = e.dflt) \/ Bad("struct / list field with a null slot does not read as the field's default")
              [] e.k = "size" ->      \* a = data bytes, b = pointers of a freshly allocated struct; off, bits = what the schema node says
                   (e.a = e.off /\ e.b = e.bits) \/ Bad("allocated struct size differs from the schema node")
              [] e.k \in {"roundtrip", "panic", "error", "missing-accessor", "readback", "inactive-read", "name", "checktag"} ->
